@@ -15,7 +15,7 @@ SPEC = {
          "eval": "fun c => let '(s, w, d, v, p, r) := c in check_qs s w d v p r", "per_shard": 25},
     ],
     "classes": CLASSES,
-    "n_quick": 2000, "n_thorough": 40000,
+    "n_quick": 1200, "n_thorough": 15000,
     "level": "proof",
     "what_violation": "a subscription response carries errors of another event / loses its own / a streamed query does not yield exactly execute's response",
     "rule": ("derive-built #[Subscription] root (5 root fields: non-null and nullable object items, a leaf item) over the schema family of "
@@ -41,8 +41,9 @@ MANIFEST = {
              "at a time per stream, the event's top-level fields joined by try_join_all with gated resolvers, errors pushed to the request-wide list "
              "and taken when an event completes), instrumented with the errors each event raised itself. Theorems for ALL schedules and plans: if no "
              "event execution runs while another root field's execution is in progress (in particular with one root field, or with ready resolvers) "
-             "every response carries exactly its own errors; the data of every response is its own event's field for every schedule; a query or "
-             "mutation through execute_stream yields exactly execute's response and the end. The full statement is refuted by a two-field witness "
+             "every response carries exactly its own errors; a query or mutation through execute_stream yields exactly execute's response and the end "
+             "(that theorem is a transcription of the non-subscription branch, tied to the code by the QS cases). That each response's data is its "
+             "own event's field is built into the machine (data is computed from the event's own plan) and is checked by correspondence, not a separate theorem. The full statement is refuted by a two-field witness "
              "(recorded finding, replayed on the real code). The machine is compared with the real stream per poll step on every generated schedule."),
     "note": "trusted: Coq kernel, harness, sampled agreement machine vs code; theorems closed under the global context",
 }
